@@ -269,15 +269,39 @@ def check(model, rep):
 
     # ---------------------------------------------------------------- R06.2
     rep.rule('R06.2', 'each Jacobian variant is built from the screw list of its own frame with the documented change of frame')
-    j = M(arm, 'jacobian')
-    r = returns_of(j)
-    ok = len(r) == 1 and is_call(r[0].value, 'JacobianSpace') and [src(a) for a in r[0].value.args] == ['self.screw_list', j.params[1]]
-    rep.ob('R06.2', j, 'JacobianSpace(self.screw_list, theta)', ok, 'space Jacobian is not built from the space screws: ' + (src(r[0].value) if r else '?'))
-    jb = M(arm, 'jacobianBody')
-    r = returns_of(jb)
-    ok = len(r) == 1 and is_call(r[0].value, 'JacobianBody') and [src(a) for a in r[0].value.args] == ['self.screw_list_body', jb.params[1]]
-    rep.ob('R06.2', jb, 'JacobianBody(self.screw_list_body, theta)', ok,
-           'body Jacobian is not built from the BODY screws: ' + (src(r[0].value) if r else '?'))
+    from .common_ops import flat_method as _fm62
+    from ..engine.paths import paths_of as _paths62
+
+    def kernel_on_table(name, kernel, table, what):
+        """every returning path of Arm.<name> hands `kernel` the screw table of its own frame and the joint vector asked for: the argument, or the
+        stored joints (a copy of them) on the path where the argument is None"""
+        fi_ = M(arm, name)
+        th = fi_.params[1]
+        flat_ = _fm62(arm, name)
+        bad, n_ret = None, 0
+        for pth in _paths62(flat_.node, fi_.params):
+            if pth.ret in (None, '<none>'):
+                continue
+            n_ret += 1
+            try:
+                e_ = ast.parse(pth.ret_src, mode='eval').body
+            except SyntaxError:
+                bad = pth.ret
+                break
+            if not (isinstance(e_, ast.Call) and src(e_.func).split('.')[-1] == kernel and len(e_.args) == 2 and not e_.keywords):
+                bad = pth.ret
+                break
+            a0, a1 = src(e_.args[0]).replace(' ', ''), src(e_.args[1]).replace(' ', '')
+            # (`theta__was`: the value the parameter had before it was re-bound on this path)
+            none_path = any(k_.replace(' ', '').replace('__was', '') in ('%sisNone' % th, '%s==None' % th) and v_ for k_, v_ in pth.facts.items()) or \
+                any(k_.replace(' ', '').replace('__was', '') in ('%sisnotNone' % th, '%s!=None' % th) and not v_ for k_, v_ in pth.facts.items())
+            stored = a1 in ('self._theta', 'self._theta.copy()', 'np.copy(self._theta)', 'numpy.copy(self._theta)')
+            if a0 != table or not (a1 == th or (stored and none_path)):
+                bad = pth.ret
+                break
+        rep.ob('R06.2', fi_, '%s(%s, theta)' % (kernel, table), bad is None and n_ret >= 1, '%s: %s' % (what, bad if bad is not None else 'no returning path'))
+    kernel_on_table('jacobian', 'JacobianSpace', 'self.screw_list', 'space Jacobian is not built from the space screws')
+    kernel_on_table('jacobianBody', 'JacobianBody', 'self.screw_list_body', 'body Jacobian is not built from the BODY screws')
     jacobian_link_rule(model, rep, 'R06.2', arm)
     je = M(arm, 'jacobianEETrans')
     il = Inliner(je)
